@@ -197,3 +197,18 @@ Proof.
   intros H. split; [now apply filter_object_labels_any|]. split; [now apply ulabels_object_labels|].
   split; [apply ulabels_ok|apply ulabels_labels_ok].
 Qed.
+
+(* the time-stamp label: the driver's stamp ("0" in the model) is kept only when the release's
+   own label map has no entry of that name - newSecretsObject writes rls.Labels over it.  So a
+   release read back through Query and updated again keeps the createdAt of its creation (the
+   point of the second fromMap) and, from its second update on, also the modifiedAt of its
+   first update. *)
+Theorem stamp_label_own_wins (stamp : string) (r : rel) :
+  is_stamp stamp ->
+  aget stamp (object_labels stamp r) =
+  Some (match alast stamp (rlabels r) with Some v => v | None => "0" end).
+Proof.
+  intros Hst. unfold object_labels. rewrite aget_from_map.
+  assert (Hs : alast stamp (sys_labels r) = None) by (destruct Hst as [->| ->]; reflexivity).
+  rewrite Hs, aget_from_map. destruct (alast stamp (rlabels r)); auto. now rewrite aget_aset_eq.
+Qed.
